@@ -116,6 +116,24 @@ pub fn bitset_graph(n: usize, idx: usize) -> GraphSpec {
 pub fn serde_history_case(fl: &str, id: &str, g: &GraphSpec, rng: &mut Rng) -> Vec<String> {
     let mut l = vec![format!("case {fl} {id}")];
     l.extend(graph_lines(g));
+    // the graph that is serialised has an edge history too: removals (which half of an undirected edge sits in which
+    // list is visible to the serialiser only), edges re-made from the other end, refused and accepted try_connects
+    if g.n > 0 {
+        for _ in 0..rng.below(7) {
+            let (u, v) = if !g.edges.is_empty() && rng.chance(70) {
+                let e = g.edges[rng.below(g.edges.len())];
+                if rng.chance(50) { (e.0, e.1) } else { (e.1, e.0) }
+            } else {
+                (rng.below(g.n), rng.below(g.n))
+            };
+            match rng.below(10) {
+                0..=3 => l.push(format!("disconnect {u} {v}")),
+                4..=6 => l.push(format!("connect {u} {v} {}", rng.below(2))),
+                7..=8 => l.push(format!("try_connect {u} {v} {}", rng.below(2))),
+                _ => l.push(format!("isolate {u}")),
+            }
+        }
+    }
     l.push("g.new 0".into());
     let order = shuffled(rng, g.n);
     for &k in &order {
